@@ -18,6 +18,7 @@ TESTS = {
     "C06": [s1("TestC06_S1Events", 15000, 200000)],
     "C07": [s1("TestC07_S1Justified", 20000, 250000)],
     "C08": [s1("TestC08_SingleFlight", 25000, 400000)],
+    "C09": [s1("TestC09_WritePlacement", 25000, 400000)],
     "C10": [s1("TestC10_S1Loads", 20000, 250000)],
     "C11": [s1("TestC11_S1Refresh", 20000, 250000), s1("TestC11_S1NoRefresh", 3000, 30000, qshards=1, tshards=4)],
     "C12": [s1("TestC12_S1Deadlines", 20000, 250000)],
